@@ -1633,7 +1633,7 @@ func buildExtensions(template *Certificate) (ret []pkix.Extension, err error) {
 			if oid, ok := oidFromExtKeyUsage(u); ok {
 				oids = append(oids, oid)
 			} else {
-				panic("internal error")
+				return nil, errors.New("x509: unknown extended key usage")
 			}
 		}
 
